@@ -18,7 +18,11 @@ Inductive query :=
 | QParameterOnParameter (p1 p2 : nat) (pid : Z) (sorted : bool)
 | QGoalOnIndex (which : option nat) (pid : Z)
 | QParameterOnIndex (which : option nat) (pid : Z)
-| QFindOptimum (idx : nat).                              (* index of the named goal; 0 for name=None *)
+| QFindOptimum (idx : nat)                               (* index of the named goal; 0 for name=None *)
+| QParetoIndividuals (front : list nat) (pid : Z)        (* ids whose feature front_number is 1; pid = -1 for None *)
+| QParetoFront (front : list nat) (pid : Z)
+| QParetoValues
+| QPopulationIds.                                        (* get_population_ids(): a set, compared sorted *)
 
 Inductive obs :=
 | OIds (l : list nat)
@@ -27,6 +31,7 @@ Inductive obs :=
 | OPair (a b : list float)
 | OIndexed (n : nat) (cols : list (list float))
 | OOpt (id : nat)
+| OTags (l : list Z)
 | OErr.
 
 Record c17_case := { c_nparams : nat; c_crit : list criteria;      (* one entry per declared goal *)
@@ -70,6 +75,12 @@ Definition run_query (np : nat) (crit : list criteria) (rs : list (record float)
            | None => OErr
            end
       else OErr
+  | QParetoIndividuals front pid =>
+      OIds (ids (pareto_individuals (fun r => existsb (Nat.eqb (r_id r)) front) pid rs))
+  | QParetoFront front pid =>
+      OTable (pareto_front fzero (fun r => existsb (Nat.eqb (r_id r)) front) ng pid rs)
+  | QParetoValues => OTable (pareto_values rs)
+  | QPopulationIds => OTags (isort Z.ltb (map fst (populations rs)))
   end.
 
 (* all recorded individuals have np parameters and one cost per declared goal (what the
@@ -96,10 +107,62 @@ Definition obs_eqb (a b : obs) : bool :=
   | OPair a1 b1, OPair a2 b2 => flist_eqb a1 a2 && flist_eqb b1 b2
   | OIndexed n x, OIndexed m y => Nat.eqb n m && list_eqb flist_eqb x y
   | OOpt x, OOpt y => Nat.eqb x y
+  | OTags x, OTags y => list_eqb Z.eqb x y
   | OErr, OErr => true
   | _, _ => false
   end.
 Definition c17_obs_eqb : list obs -> list obs -> bool := list_eqb obs_eqb.
+
+(* ---- order-insensitive comparison ----
+   Evaluated only on cases where the exact comparison above fails.  The property fixes the content of
+   the views, not the order of table rows / groups, the order of values among `==` keys of a sorted
+   listing, or which of several extremal individuals find_optimum returns; an implementation that
+   differs from the model only in those respects is reported as an order-only difference, not as a
+   mismatch.  Pairings (rows, (key, value) pairs) are kept intact by every canonicalisation. *)
+Section Canon.
+Local Open Scope float_scope.
+(* total order on non-NaN floats that also separates -0.0 from 0.0 *)
+Definition ftotal (x y : float) : bool := fltb x y || (eqv fltb x y && fltb (1 / x) (1 / y)).
+Fixpoint lex_ltb (a b : list float) : bool :=
+  match a, b with
+  | [], [] => false
+  | [], _ => true
+  | _, [] => false
+  | x :: a', y :: b' => if ftotal x y then true else if ftotal y x then false else lex_ltb a' b'
+  end.
+Definition sort_rows : list (list float) -> list (list float) := isort lex_ltb.
+Definition pair_canon_ltb (p q : float * float) : bool :=
+  if eqv fltb (fst p) (fst q) then ftotal (snd p) (snd q) else fltb (fst p) (fst q).
+Definition canon_pair (ks vs : list float) : obs :=
+  OPair (isort ftotal ks) (map snd (isort pair_canon_ltb (combine ks vs))).
+
+Definition canon_obs (c : c17_case) (q : query) (o : obs) : obs :=
+  match q, o with
+  | QTable true, OTable t => OTable (sort_rows (zipstar t))
+  | QTable false, OTable t => OTable (sort_rows t)
+  | QParameters, OTable t => OTable (sort_rows t)
+  | QCosts, OTable t => OTable (sort_rows (zipstar t))
+  | QPopulations, OGroups g => OGroups (isort (fun a b => Z.ltb (fst a) (fst b)) g)
+  | QGoalOnParameter _ _ _ true, OPair ks vs => canon_pair ks vs
+  | QParameterOnGoal _ _ _ true, OPair ks vs => canon_pair ks vs
+  | QParameterOnParameter _ _ _ true, OPair ks vs => canon_pair ks vs
+  | QFindOptimum idx, OOpt id =>
+      match find (fun r => Nat.eqb (r_id r) id) (c_recs c) with
+      | Some r => OTable [[cost_at fzero idx r + 0]]       (* the optimal value; -0.0 + 0 = 0.0 *)
+      | None => OErr
+      end
+  | _, _ => o
+  end.
+
+Definition c17_canon (c : c17_case) (os : list obs) : list obs :=
+  if Nat.eqb (length (c_queries c)) (length os)
+  then map (fun qo => canon_obs c (fst qo) (snd qo)) (combine (c_queries c) os)
+  else OErr :: os.
+
+(* (case, implementation's observations) -> do they agree with the model up to order? *)
+Definition c17_run_canon (ci : c17_case * list obs) : bool :=
+  c17_obs_eqb (c17_canon (fst ci) (c17_run (fst ci))) (c17_canon (fst ci) (snd ci)).
+End Canon.
 
 (* ---- indicators ---- *)
 Inductive icase :=
